@@ -52,7 +52,8 @@ class Loop:
   def __init__(self, inv=None, decreases=None, sorts=None, expect=None,
                mutates=(), name=None, unroll=False, pointwise=False,
                ghost=None, maybe_unbound=(), after=None, hints=None,
-               ghost_step=None):
+               ghost_step=None, head_hints=None):
+    self.head_hints = head_hints  # head_hints(head_state) -> [LemmaInst], available to the body of the inductive step
     self.inv = inv or (lambda s: z3.BoolVal(True))
     self.decreases = decreases
     self.sorts = sorts or {}
@@ -1640,6 +1641,11 @@ class Engine:
       # inductive step
       c = cond(ctx)
       ctx.assume(c)
+      if spec.head_hints:
+        for h in spec.head_hints(head):
+          if not isinstance(h, LemmaInst):
+            raise Undecided('loop head hints must be proved-lemma instances')
+          ctx.assume(h.formula)
       measure0 = spec.decreases(head) if spec.decreases else None
       if measure0 is not None:
         ctx.oblige(f'{lname}.decreases.bounded', to_z3(measure0) >= 0,
